@@ -119,6 +119,9 @@ class History:
         self.world = World(spec, gens=gens, builtin_first=self.builtin)
         self.rp = self.world.rp
         self.env = self.rp.e
+        # the generators actually installed, in configured order (built-in recording proxies first)
+        self.generators = list(self.rp.u.step_update.ordered_instruction_generators)
+        self.builtin_gens = [g for g in self.generators if getattr(g, "builtin", False)]
         self.cap = Capture()
         self.env.reporter.add_handler(self.cap)
         self.step_no = 0
